@@ -13,10 +13,10 @@ PAR = min(12, max(2, (os.cpu_count() or 4) - 4))      # servers running side by 
 
 # ============================================================================================== C16
 
-C16_STREAMS = [("sparse", 2), ("dense", 2), ("overlap", 2), ("xfer", 2), ("parallel", 1), ("tmpl", 2)]
+C16_STREAMS = [("sparse", 2), ("dense", 2), ("overlap", 2), ("xfer", 2), ("parallel", 1), ("tmpl", 2), ("ties", 2), ("zero", 1)]
 C16_N = {"quick": 300, "thorough": 3000}
 HUGE_FINITE = 50000   # "huge" access / egress limit that is still below the stub's UNREACHABLE duration (100000)
-C16_RULE = ("N generated well-formed datasets (streams sparse/dense/overlap/xfer/parallel/tmpl), each written to a Cap'n Proto cache "
+C16_RULE = ("N generated well-formed datasets (streams sparse/dense/overlap/xfer/parallel/tmpl/ties/zero), each written to a Cap'n Proto cache "
             "directory by cachegen, loaded by the real ASan server binary with the scripted walking-router stub, 6 requests each "
             "(3 route, 1 route with alternatives, 2 accessibility); the canonicalised HTTP body is compared with the in-process answer "
             "on the abstract dataset (direct) and with the Lean model (correspondence); non-trivial = success answer; "
@@ -877,7 +877,7 @@ def run_c18(tier, seed, replay=None, theorems=None, module=None):
         "(the server iterates an unordered multimap); membership is checked",
         "forms std::stoi / std::stod consume completely although they are not plain numbers (leading white space, '+', exponents) are accepted either way",
         "on not-ready data the data_error fast path answers before the parameters are parsed: HTTP 200 data_error is accepted for every request there",
-        "requests after a successful /updateCache are not routed in this check (that history is property C15)",
+        "after /updateCache only the CLASSIFICATION of the answers is checked here (one history: ready -> not ready -> ready); that the answers equal those of a fresh server is property C15",
     ]
     stats = collections.Counter()
     seen = set()
@@ -945,6 +945,13 @@ def run_c18(tier, seed, replay=None, theorems=None, module=None):
             if urng.random() < 0.3: u += "&%s=%s" % (urng.choice(UPDATE_PATH_KEYS), urng.choice(["", "x", "a%22b", "..", "%2Ftmp", "%ff", "x%c3%28", "%e2%82", "%c3%a9"]))
             upd_urls.append(u)
         plans.append((gupd, upd_urls))
+        # readiness flips: ready -> (refresh from a directory without files) not ready -> (refresh from the own directory) ready; the same
+        # request list is classified against the readiness in force (every endpoint must follow the status /updateCache recomputes)
+        gflip = mk("flip", ddef)
+        flip_reqs = cat_small[:: max(1, len(cat_small) // 14)][:14]
+        flip_urls = flip_reqs + ["/updateCache?names=all&path=/nonexistent-verif-empty-dir"] + flip_reqs + ["/updateCache?names=all"] + flip_reqs
+        flip_ready = [True] * len(flip_reqs) + [None] + [False] * len(flip_reqs) + [None] + [True] * len(flip_reqs)
+        plans.append((gflip, flip_urls))
         gpair = mk("pairs", ddef)            # defaults / no-limit comparisons run on their own server
         # ---------------- run
         t0 = time.time()
@@ -956,12 +963,17 @@ def run_c18(tier, seed, replay=None, theorems=None, module=None):
         t_run = time.time() - t0
         # ---------------- evaluate
         for g, urls in plans:
-            is_upd = g is gupd
             ctx = cdef if g in (gdef, gempty, gnos) else (ctxs[groups.index(g) - 1] if g.name.startswith("gen") else cdef)
-            for rec in g.records:
+            for ridx, rec in enumerate(g.records):
                 if rec.get("skipped"):
                     stats["skipped after too many restarts"] += 1; continue
                 url = rec["url"]
+                is_upd = g is gupd or (g is gflip and url.startswith("/updateCache"))
+                ready_now = g.ready
+                if g is gflip:
+                    if g.restarts:      # a restart resets the data: the planned readiness no longer describes the server
+                        stats["flip requests not judged (server restarted)"] += 1; continue
+                    if ridx < len(flip_ready) and flip_ready[ridx] is not None: ready_now = flip_ready[ridx]
                 rep.evaluations += 1
                 stats["requests %s" % g.name] += 1
                 ep = "updateCache" if is_upd else url.split("?")[0].strip("/").split("/")[-1]
@@ -984,10 +996,14 @@ def run_c18(tier, seed, replay=None, theorems=None, module=None):
                     stats["updateCache %s" % (j.get("status") if j else "unparsable")] += 1
                     feats = {"update"}
                 else:
-                    fails, j, info = classify_route_response(ep, url, rec["st"], rec["hd"], rec["body"], g.ready, set(ctx.known), set(ctx.empty), codes)
+                    fails, j, info = classify_route_response(ep, url, rec["st"], rec["hd"], rec["body"], ready_now, set(ctx.known), set(ctx.empty), codes)
                     feats = info["features"]
                     stats["%s %s %s" % (ep, rec["st"], (j.get("errorCode") or j.get("status")) if j else "unparsable")] += 1
                 for sig, desc in fails:
+                    if g is gflip:
+                        fail(sig + "-after-refresh", "%s  [GET %s, request %d of a history in which /updateCache made the data %s]" % (
+                            desc, _short(url), ridx, "ready" if ready_now else "not ready"), g, [r["url"] for r in g.records[:ridx + 1]], key=(ep, desc[:75]))
+                        continue
                     fail(sig, "%s  [GET %s on %s data]" % (desc, _short(url), "ready" if g.ready else "not-ready (" + g.name + ")"), g, [url],
                          key=(ep, desc[:75]))
                 if not fails and (feats or rec["st"] == 400):
@@ -1151,10 +1167,21 @@ def _c18_replay(rep, path, server, cachegen, codes, wd):
     g = Group("replay", cdir, server, ready, recipe=mode + "\n" + ("".join(block)))
     try:
         prev = None
+        emptied = set()      # cache kinds last refreshed from a custom path (a replay names only directories without files there)
+        ALLK = set(UPDATE_KNOWN) - {"all"}
         for u in urls:
             rec = g.send(u)
             rep.evaluations += 1
             ep = u.split("?")[0].strip("/").split("/")[-1]
+            ready = g.ready and not (emptied & {"agencies", "services", "nodes", "lines", "paths", "scenarios", "schedules"})
+            if ep == "updateCache" and rec["st"] == 200:
+                ns_, pth = analyse_update(u)
+                kinds = set()
+                for n_ in ns_:
+                    if n_ == "all": kinds |= ALLK
+                    elif n_ in UPDATE_KNOWN: kinds.add(n_)
+                if pth: emptied |= kinds
+                else: emptied -= kinds
             print("GET %s\n  -> %s %s %r" % (_short(u, 300), rec["st"], rec["hd"].get("_error") or "", " ".join(rec["body"].decode("utf-8", "replace").split())[:300]))
             if rec["st"] is None:
                 print("  no response; process %s %s" % ("DIED" if rec["died"] else "alive", rec["san"][:600]))
